@@ -3,10 +3,12 @@
 # runs the check of its property, reverts, and writes /verif/seeded/MATRIX.md.
 set -u
 TIER=${1:-quick}
-OUT=/verif/seeded/MATRIX.md
+FILTER=${2:-}
+OUT=/verif/seeded/MATRIX${FILTER:+.$FILTER}.md
 echo "| seeded change | property | caught by ($TIER) | first signature |" > $OUT.tmp
 echo "|---|---|---|---|" >> $OUT.tmp
-for d in /verif/seeded/C*-m* /verif/mutants/*.diff; do
+for d in /verif/seeded/C*-*m* /verif/mutants/*.diff; do
+  case "$d" in *"$FILTER"*) ;; *) continue ;; esac
   if [ -d "$d" ]; then patch=$d/patch.diff; name=$(basename $d); id=${name%%-*}; else patch=$d; name=$(basename $d .diff); id=${name%%-*}; fi
   res=$(/verif/tools/trymutant.sh "$patch" "$id" "$TIER" 2>&1)
   rc=$(echo "$res" | grep -o "exit=[0-9]*" | tail -1)
